@@ -2,6 +2,7 @@
 import binascii
 import hashlib
 import json
+import glob
 import os
 import re
 import shutil
@@ -172,6 +173,9 @@ def run_vdyn(groups, tag="vdyn"):
     answers = [None] * len(groups)
     for ids, of, p in procs:
         p.wait()
+        # a `C` job that panics inside process_grammar leaves its scratch directory behind
+        for leftover in glob.glob(os.path.join(WORK, f"c16-{p.pid}-*")):
+            shutil.rmtree(leftover, ignore_errors=True)
         lines = open(of).read().splitlines() if os.path.exists(of) else []
         pos = 0
         for i in ids:
